@@ -318,7 +318,7 @@ func nastyFor(r *rand.Rand, name string) string {
 // (the kinds the property names — text where an element is expected, missing
 // or broken attribute values — are drawn more often)
 var mutKinds = []string{"text-before-child", "text-before-child", "ws-between", "drop-attr", "drop-attr", "dup-attr", "empty-attr", "nasty-attr", "nasty-attr", "nasty-attr",
-	"rename-attr", "ns", "rename", "wrap", "hoist", "dup-child", "del-child", "del-children", "swap", "nasty-text", "nasty-text", "raw", "graft", "type", "deep", "add-attr", "text-only"}
+	"rename-attr", "ns", "rename", "entry-degenerate", "entry-degenerate", "wrap", "hoist", "dup-child", "del-child", "del-children", "swap", "nasty-text", "nasty-text", "raw", "graft", "type", "deep", "add-attr", "text-only"}
 
 // mutate applies one structural mutation to the tree rooted at root and
 // returns its kind ("" when the chosen mutation did not apply).  graft is a
@@ -328,6 +328,17 @@ func mutate(r *rand.Rand, root *node, graft []*node) string {
 	n := nodes[r.Intn(len(nodes))]
 	kind := mutKinds[r.Intn(len(mutKinds))]
 	switch kind {
+	case "entry-degenerate":
+		var entries []*node
+		for _, x := range nodes {
+			if x != root && entryNames[x.Name] {
+				entries = append(entries, x)
+			}
+		}
+		if len(entries) == 0 {
+			return ""
+		}
+		degenerate(r, entries[r.Intn(len(entries))])
 	case "text-before-child":
 		pos := 0
 		if len(n.Kids) > 0 {
@@ -592,6 +603,44 @@ func stanzaErr(typ, cond, text string) *node {
 		e.add(el("text", nsStanzas, "xml:lang", "en").text(text))
 	}
 	return e
+}
+
+// entryNames are the elements that list-style payloads repeat.
+var entryNames = map[string]bool{"item": true, "result": true, "identity": true, "feature": true, "field": true, "conference": true,
+	"header": true, "note": true, "option": true, "group": true, "status": true}
+
+// degenerate turns one entry of a list into one of the shapes a sloppy or
+// hostile peer sends: completely empty, payload-less (attributes kept),
+// text-only, or with a foreign child instead of / besides its payload.
+func degenerate(r *rand.Rand, n *node) {
+	switch r.Intn(5) {
+	case 0:
+		n.Attrs, n.Kids = nil, nil
+	case 1, 2:
+		n.Kids = nil
+	case 3:
+		n.Kids = []kid{{Text: []string{"x", " ", "\n\t"}[r.Intn(3)]}}
+	default:
+		f := el([]string{"foreign", "item", "x", "query"}[r.Intn(4)], "urn:example:foreign", "a", "b").add(el("deep", ""))
+		if r.Intn(2) == 0 {
+			n.Kids = []kid{{El: f}}
+		} else {
+			n.Kids = append([]kid{{El: f}}, n.Kids...)
+		}
+	}
+}
+
+// degenerateEntries degenerates about half of the list entries under root and
+// returns how many it changed.
+func degenerateEntries(r *rand.Rand, root *node) int {
+	k := 0
+	for _, x := range root.all() {
+		if x != root && entryNames[x.Name] && r.Intn(2) == 0 {
+			degenerate(r, x)
+			k++
+		}
+	}
+	return k
 }
 
 // richErr builds a stanza error payload with the shapes peers really send and
